@@ -68,6 +68,8 @@ def run(rep, tier):
     rep.configs = configs
     for cfg in configs:
         c = facts.facts(cfg).crate("pest")
+        global CRATE
+        CRATE = c
         sfx = "" if cfg == "default" else "@" + cfg
         snap(rep, c, sfx)
         mode(rep, c, sfx)
@@ -921,8 +923,31 @@ def skip_basic_only(rep, c, sfx):
         r.violation("nomemchr", where(fn["body"]), "memchr used without the feature")
 
 
-def conjuncts(n):
+def expand_pred(n):
+    """A call of a crate-local boolean predicate on the parser state whose body is a single expression
+    (`fn emits_tokens(&self) -> bool { self.lookahead == None && self.atomicity != Atomic }`), or the block such a call
+    was inlined into, stands for that expression (canon_cond abstracts the state variable anyway)."""
     n = peel(n)
+    for _ in range(3):
+        if kind(n) == "Block" and n.get("inlined") and all(st.get("inl_param") for st in n.get("stmts", [])) \
+                and n.get("expr") is not None:
+            n = peel(n["expr"])
+            continue
+        if kind(n) in ("MethodCall", "Call") and CRATE is not None and isinstance(callee(n), str) \
+                and callee(n).startswith("pest::") and n.get("ty") == "bool":
+            f = CRATE.fn(callee(n))
+            args = hirq.call_args(n)
+            if f is not None and f.get("body") is not None and f.get("output") == "bool" and len(args) == 1 \
+                    and "ParserState" in str(peel(args[0]).get("ty", "")) and not f["body"].get("stmts") \
+                    and f["body"].get("expr") is not None and kind(peel(f["body"]["expr"])) in ("Binary", "Unary"):
+                n = peel(f["body"]["expr"])
+                continue
+        break
+    return n
+
+
+def conjuncts(n):
+    n = expand_pred(n)
     if kind(n) == "Binary" and n["op"] == "&&":
         return conjuncts(n["l"]) + conjuncts(n["r"])
     return [n]
